@@ -373,45 +373,46 @@ example : LineEquiv 4 (some 6) [⟨[0], [1], 1, true⟩, ⟨[1], [7], 7, true⟩
 /-! ## the cache charges what a furthest-next-use policy with bypass incurs -/
 
 /-- `cacheTraffic` = the reference simulator (resident set; on a miss with a later use the line is
-    brought in if there is room or if some resident line is needed later than it, evicting the
-    resident line whose next use is furthest; "next use" measured by position in the access
-    sequence).  PARTIAL: proved for consumption sequences `xs` (all bindings interleaved) that
-    (1) carry correct next-use stamps, (2) are ordered as `ListElem` compares and have no stamp tie
-    between different lines of a binding, (3) contain no staging (pinned) access.  Outside (2) the
-    implementation can raise AssertionError or evict suboptimally, outside (3) it can raise
-    AssertionError (known findings); there the correspondence still compares it with the reference. -/
+    brought in if there is room, if it is a pinned staging line, or if some resident unpinned line is
+    needed later than it, evicting the unpinned resident line whose next use is furthest; "next use"
+    measured by position in the access sequence).  Pinned (staging) lines included.
+    PARTIAL: proved for consumption sequences `xs` (all bindings interleaved) that (1) carry correct
+    next-use stamps, (2) are ordered as `ListElem` compares and have no stamp tie between different
+    lines of a binding.  With such ties the implementation can evict suboptimally (open finding);
+    there the correspondence still compares it with the reference. -/
 theorem cache_eq_reference_partial (ls : Nat) (cap : Option Nat) (xs : Sched)
-    (h1 : schedNextOkB xs = true) (h2 : schedOrdB xs = true)
-    (h3 : ∀ x ∈ xs, x.2.staging = false) :
+    (h1 : schedNextOkB xs = true) (h2 : schedOrdB xs = true) :
     (xs.foldl (cstep ls cap) {}).failed = none ∧
     (xs.foldl (cstep ls cap) {}).reads = (refCache ls cap {} xs).reads ∧
     (xs.foldl (cstep ls cap) {}).writes = (refCache ls cap {} xs).writes ∧
     (xs.foldl (cstep ls cap) {}).over = (refCache ls cap {} xs).over := by
   have key : ∀ (xs : Sched) (s : CState) (r : RState), CRel ls s r xs → SNextOk xs → SOrd xs →
-      (∀ x ∈ xs, x.2.staging = false) →
       CRel ls (xs.foldl (cstep ls cap) s) (refCache ls cap r xs) [] := by
     intro xs
     induction xs with
-    | nil => intro s r h _ _ _; exact h
+    | nil => intro s r h _ _; exact h
     | cons x rest ih =>
-      intro s r h hn ho hs
+      intro s r h hn ho
       simp only [List.foldl_cons, refCache]
-      apply ih _ _ _ hn.2 ho.2 (fun y hy => hs y (List.mem_cons_of_mem _ hy))
+      apply ih _ _ _ hn.2 ho.2
       have hstep : cstep ls cap s x = cCore ls cap (cCharge ls s x) x := by
         simp [cstep, h.ok]
       rw [hstep]
-      exact crel_core (crel_charge h) hn ho (hs x List.mem_cons_self)
+      exact crel_core (crel_charge h) hn ho
   have hinit : CRel ls {} {} xs := by
-    refine ⟨rfl, rfl, ?_, ?_, ?_, ?_, ?_, ?_, rfl, rfl, rfl, rfl⟩
+    refine ⟨rfl, ?_, ?_, ?_, ?_, ?_, ?_, rfl, rfl, rfl, rfl⟩
+    · intro k
+      constructor
+      · intro hc; simp at hc
+      · rintro ⟨en, hen, _⟩; cases hen
     · intro k; rfl
     · exact List.nodup_nil
-    · intro en hen; cases hen
     · intro en hen; cases hen
     · exact List.Pairwise.nil
     · intro e; constructor
       · intro he; cases he
       · rintro ⟨en, hen, _⟩; cases hen
-  have := key xs {} {} hinit (snextOk_of_B h1) (sord_of_B h2) h3
+  have := key xs {} {} hinit (snextOk_of_B h1) (sord_of_B h2)
   exact ⟨this.ok, this.reads, this.writes, this.over⟩
 
 /-- non-vacuity: capacity of one line, X Y X Y X without ties: the second line is bypassed -/
@@ -454,23 +455,33 @@ example :
     getAt (xs.foldl (cstep 32 (some 64)) {}).reads 0 = 64 := by decide
 
 /-- The cache theorem stated on the bindings' traces: if every binding's next-use trace is
-    stamp-sorted, carries correct next-use stamps (`accsOf_nextOk`), has no two different lines at one
-    stamp and no staging access, then `cacheTraffic` (all bindings, any capacity and line size)
-    raises nothing and charges what the furthest-next-use-with-bypass reference charges on the
-    consumption sequence.  PARTIAL with respect to the property's quantifier: stamp ties between
-    different lines and pinned staging lines are excluded (see `cache_eq_reference_partial`). -/
+    stamp-sorted, carries correct next-use stamps (`accsOf_nextOk`) and has no two different lines at
+    one stamp, then `cacheTraffic` (all bindings, any capacity and line size, pinned staging lines
+    included) raises nothing and charges what the furthest-next-use-with-bypass reference charges on
+    the consumption sequence.  PARTIAL with respect to the property's quantifier: stamp ties between
+    different lines are excluded (see `cache_eq_reference_partial`). -/
 theorem cache_eq_reference_traces_partial (L ls : Nat) (cap : Option Nat) (traces : List (List Acc))
-    (h1 : ∀ t ∈ traces, nextOkB t = true) (h2 : ∀ t ∈ traces, TraceOk L t)
-    (h3 : ∀ t ∈ traces, ∀ a ∈ t, a.staging = false) :
+    (h1 : ∀ t ∈ traces, nextOkB t = true) (h2 : ∀ t ∈ traces, TraceOk L t) :
     (cacheRun L ls cap traces).failed = none ∧
     (cacheRun L ls cap traces).reads = (refCache ls cap {} (schedule L traces)).reads ∧
     (cacheRun L ls cap traces).writes = (refCache ls cap {} (schedule L traces)).writes := by
   have := cache_eq_reference_partial ls cap (schedule L traces) (schedule_nextOk L traces h1)
-    (schedule_ord L traces h2) (by
-      intro x hx
-      obtain ⟨t, ht, hm⟩ := schedule_mem L traces hx
-      exact h3 t ht _ hm)
+    (schedule_ord L traces h2)
   exact ⟨this.1, this.2.1, this.2.2.1⟩
+
+/-- non-vacuity with a pinned staging line (shape 2, writes at positions 3 and 1 of one line) next to
+    a second binding that addresses the same line tuple — the situation of the repaired defect -/
+example :
+    let t0 : List Acc := accsOf [false, true] [false, true] 8 none
+      [⟨[0, 1], [1, 0], 0, false⟩, ⟨[1, 7], [2, 2], 1, false⟩]
+    let t1 : List Acc := accsOf [false, true] [false, true] 16 (some 2)
+      [⟨[0, 0], [0, 0], 3, true⟩, ⟨[0, 2], [0, 0], 1, true⟩]
+    (∀ t ∈ [t0, t1], nextOkB t = true ∧ stampsSortedB (t.map (·.stamp)) = true ∧ traceTieFreeB t = true
+        ∧ t.all (fun a => decide (a.stamp.length ≤ 2)) = true) ∧
+    t1.any (·.staging) = true ∧
+    (cacheRun 2 128 none [t0, t1]).failed = none ∧
+    getAt (cacheRun 2 128 none [t0, t1]).reads 0 = 128 ∧
+    getAt (cacheRun 2 128 none [t0, t1]).writes 1 = 128 := by decide
 
 example :
     let t0 : List Acc := accsOf [true] [true] 1 none [⟨[0], [3], 3, false⟩, ⟨[1], [3], 3, false⟩, ⟨[2], [4], 4, false⟩]
